@@ -461,8 +461,7 @@ class Runner:
                 # oracle: spec predicate judged by Lean
                 ok = self.ask('rf.same %s %s | %s' % (h, ptstr(pt), got))
                 if ok != 'true':
-                    isfloat = bool(res.sympy.atoms(L_.sym.Float)) if hasattr(res, 'sympy') else False
-                    self.cex(case, {'kind': 'format', 'format': fname, 'float': isfloat},
+                    self.cex(case, {'kind': 'format', 'format': fname},
                              {'format': fname, 'point': ptstr(pt), 'lcapy_value': got, 'spec_value': sv, 'lcapy_result': str(res)[:300]},
                              '%s() changes the value of the expression' % fname)
                     break
